@@ -5,6 +5,7 @@ import (
 	"go/constant"
 	"go/token"
 	"go/types"
+	"strings"
 
 	"golang.org/x/tools/go/ssa"
 
@@ -31,14 +32,27 @@ type histModel struct {
 	gens    []string // map-typed fields
 	capF    string   // the capacity field
 	capBusy map[*ssa.Parameter]bool
+	genT    map[string]bool // the struct types that declare the generation fields: the cache itself, or a struct it holds by value
 }
 
+// isGenHolder: t is the replay cache type or the by-value struct inside it that holds the generations.
+func (m *histModel) isGenHolder(t string) bool { return t == replayT || m.genT[t] }
+
 func findHist(c *Ctx) *histModel {
-	m := &histModel{}
+	m := &histModel{genT: map[string]bool{}}
 	for _, fl := range c.P.StructFields(replayT) {
 		switch u := fl.Type().Underlying().(type) {
 		case *types.Map:
 			m.gens = append(m.gens, fl.Name())
+		case *types.Struct:
+			// the generations grouped in a struct held by value (embedded or named)
+			tn := eng.TypeName(fl.Type())
+			for i := 0; i < u.NumFields(); i++ {
+				if _, isMap := u.Field(i).Type().Underlying().(*types.Map); isMap && strings.HasPrefix(tn, "service.") {
+					m.gens = append(m.gens, u.Field(i).Name())
+					m.genT[tn] = true
+				}
+			}
 		case *types.Basic:
 			if u.Info()&types.IsInteger != 0 {
 				m.capF = fl.Name()
@@ -59,7 +73,7 @@ func (m *histModel) genLoad(v ssa.Value) (string, bool) {
 		return "", false
 	}
 	t, fl, _, ok := eng.FieldOf(fa)
-	if !ok || t != replayT {
+	if !ok || !m.isGenHolder(t) {
 		return "", false
 	}
 	for _, g := range m.gens {
@@ -378,7 +392,7 @@ func ruleHistory(c *Ctx) {
 	}
 	isGenField := func(fa *ssa.FieldAddr) (string, bool) {
 		t, fl, _, ok := eng.FieldOf(fa)
-		if !ok || t != replayT {
+		if !ok || !m.isGenHolder(t) {
 			return "", false
 		}
 		for _, g := range m.gens {
@@ -414,8 +428,8 @@ func ruleHistory(c *Ctx) {
 				if _, ok := isGenField(fa); !ok {
 					continue
 				}
-				if _, fresh := fa.X.(*ssa.Alloc); fresh {
-					continue // construction
+				if al := allocRoot(fa.X); al != nil && al.Parent() == f {
+					continue // construction of a value this function has just allocated
 				}
 				stores = append(stores, st)
 				if g, ok := m.genOf(p, st.Val); ok {
@@ -539,7 +553,7 @@ func ruleHistory(c *Ctx) {
 				c.CheckAt("HISTORY", key+":replaced-only-by-rotation", st, offHere, fmt.Sprintf("generation %q is replaced by a value that is neither another generation nor an empty map", dst))
 				continue
 			}
-			c.CheckAt("HISTORY", key+":emptied-only-after-its-content-moved-on", st, movedOut || offHere,
+			c.CheckAt("HISTORY", key+":emptied-only-after-its-content-moved-on", st, movedOut,
 				fmt.Sprintf("generation %q is emptied although its content was not moved to another generation first: every handshake remembered there is forgotten at once", dst))
 		}
 	}
@@ -609,22 +623,31 @@ func ruleHistory(c *Ctx) {
 				okG := true
 				for _, al := range allocs {
 					set := false
-					for _, rr := range *al.Referrers() {
-						fa, isFA := rr.(*ssa.FieldAddr)
-						if !isFA {
-							continue
+					var visit func(addr ssa.Value, d int)
+					visit = func(addr ssa.Value, d int) {
+						if d > 4 || addr.Referrers() == nil {
+							return
 						}
-						if _, fl, _, ok := eng.FieldOf(fa); !ok || fl != g {
-							continue
-						}
-						for _, r2 := range *fa.Referrers() {
-							if st, isSt := r2.(*ssa.Store); isSt && st.Addr == ssa.Value(fa) {
-								if _, isMk := p.Resolve(st.Val).(*ssa.MakeMap); isMk {
-									set = true
+						for _, rr := range *addr.Referrers() {
+							fa, isFA := rr.(*ssa.FieldAddr)
+							if !isFA {
+								continue
+							}
+							if _, fl, _, ok := eng.FieldOf(fa); !ok || fl != g {
+								visit(fa, d+1) // a nested struct holding the generations
+								continue
+							}
+							for _, r2 := range *fa.Referrers() {
+								if st, isSt := r2.(*ssa.Store); isSt && st.Addr == ssa.Value(fa) {
+									// make(map) here, or a helper all of whose results are make(map)
+									if isMk, _ := p.AllFrom(st.Val, eng.Deep, func(v ssa.Value) bool { _, mk := v.(*ssa.MakeMap); return mk }); isMk {
+										set = true
+									}
 								}
 							}
 						}
 					}
+					visit(al, 0)
 					if !set && insertGen[g] {
 						okG = false
 					}
@@ -773,7 +796,8 @@ func ruleHistory(c *Ctx) {
 		okV := h.v
 		_, missEdges := eng.BoolEdges(core, func(v ssa.Value) bool { return v == okV })
 		bad := ""
-		reach := eng.ReachBlocks(h.at.Block(), missEdges)
+		// paths on which the history is disabled promise nothing (the lookup may be made before that test)
+		reach := eng.ReachBlocks(h.at.Block(), eng.Union(missEdges, e.off))
 		for _, r := range eng.Returns(core) {
 			if !reach[r.Block()] || len(r.Results) == 0 {
 				continue
